@@ -926,6 +926,11 @@ class Phonopy:
 
     @nac_params.setter
     def nac_params(self, nac_params):
+        if nac_params is not None and len(nac_params["born"]) != len(self._primitive):
+            raise ValueError(
+                "Numbers of atoms in primitive cell and Born effective charges "
+                "are different."
+            )
         self._nac_params = nac_params
         if self._force_constants is not None:
             self._set_dynamical_matrix()
